@@ -66,55 +66,73 @@ def run(prop, tier, seed, verdict):
     rng = random.Random(seed * 31 + 10)
     n = 1500 if tier == "quick" else 30000
     workdir = os.path.join(WORK, prop)
-    files, meta = [], []
-    for i in range(n):
-        d = parsegen.gen_desc(rng, KEY, ABS)
-        files.append(parsegen.render(d).encode())
-        meta.append(("valid", d, None))
-        for kind, dd, extra in parsegen.invalidations(d, rng):
-            files.append(parsegen.render(dd, extra).encode())
-            meta.append((kind, dd, extra))
-    results, glog = run_batch(binary, workdir, files, "c10")
-    model = run_model(results)
+    # processed in chunks of 1500 descriptions so that the thorough tier does not hold a million files in memory
+    import hashlib
     nvalid = ninvalid = 0
     kinds = {}
     disag = []
-    for i, ((res, ser), (kind, d, extra)) in enumerate(zip(results, meta)):
-        if res == "crash":
-            verdict.violation({"clause": "runner-crash"}, {"log": glog[-2000:], "file": files[i].decode("utf8", "replace")}, False)
+    total_files, distinct, nmodel = 0, set(), 0
+    first_sample = None
+    crashed = False
+    for c0 in range(0, n, 1500):
+        files, meta = [], []
+        for i in range(c0, min(n, c0 + 1500)):
+            d = parsegen.gen_desc(rng, KEY, ABS)
+            files.append(parsegen.render(d).encode())
+            meta.append(("valid", d, None))
+            for kind, dd, extra in parsegen.invalidations(d, rng):
+                files.append(parsegen.render(dd, extra).encode())
+                meta.append((kind, dd, extra))
+        results, glog = run_batch(binary, workdir, files, "c10")
+        model = run_model(results)
+        nmodel += len(model)
+        total_files += len(files)
+        for f in files:
+            distinct.add(hashlib.sha1(f).digest()[:10])
+        if first_sample is None and files:
+            first_sample = {"file": files[0].decode()[:1500], "implementation": results[0][0][:600]}
+        for i, ((res, ser), (kind, d, extra)) in enumerate(zip(results, meta)):
+            if res == "crash":
+                verdict.violation({"clause": "runner-crash"}, {"log": glog[-2000:], "file": files[i].decode("utf8", "replace")}, False)
+                crashed = True
+                break
+            if kind == "valid":
+                nvalid += 1
+                exp = parsegen.expect(d)
+                if res != exp:
+                    a, b = first_diff(res, exp)
+                    field = a.split("=")[0] if "=" in a else a[:20]
+                    verdict.violation({"clause": "unfaithful", "field": field if res.startswith("ok") else res},
+                                      {"file": files[i].decode(), "implementation": res[:3000], "expected_from_description": exp[:3000],
+                                       "first_difference": {"implementation": a, "expected": b}}, True)
+            else:
+                ninvalid += 1
+                kinds[kind] = kinds.get(kind, 0) + 1
+                if res != "err":
+                    verdict.violation({"clause": "accepted-invalid", "kind": kind},
+                                      {"file": files[i].decode(), "implementation": res[:2000], "invalidation": kind}, True)
+            if i in model and model[i] != res:
+                if len(disag) < 50:
+                    disag.append((files[i], res, model[i], meta[i][0]))
+                else:
+                    disag.append(None)
+        if crashed:
             break
-        if kind == "valid":
-            nvalid += 1
-            exp = parsegen.expect(d)
-            if res != exp:
-                a, b = first_diff(res, exp)
-                field = a.split("=")[0] if "=" in a else a[:20]
-                verdict.violation({"clause": "unfaithful", "field": field if res.startswith("ok") else res},
-                                  {"file": files[i].decode(), "implementation": res[:3000], "expected_from_description": exp[:3000],
-                                   "first_difference": {"implementation": a, "expected": b}}, True)
-        else:
-            ninvalid += 1
-            kinds[kind] = kinds.get(kind, 0) + 1
-            if res != "err":
-                verdict.violation({"clause": "accepted-invalid", "kind": kind},
-                                  {"file": files[i].decode(), "implementation": res[:2000], "invalidation": kind}, True)
-        if i in model and model[i] != res:
-            disag.append((i, res, model[i]))
     if disag and not verdict.violations:
-        i, res, mo = disag[0]
+        f, res, mo, kind0 = disag[0]
         a, b = first_diff(res, mo)
-        verdict.violation({"clause": "correspondence", "kind": meta[i][0]},
+        verdict.violation({"clause": "correspondence", "kind": kind0},
                           {"correspondence": "Hidi.convert (lean/Hidi/Parser.lean) vs config.ParseData after decoding",
-                           "file": files[i].decode(), "implementation": res[:2000], "model": mo[:2000],
+                           "file": f.decode(), "implementation": res[:2000], "model": mo[:2000],
                            "first_difference": {"implementation": a, "model": b}, "disagreements": len(disag)}, False)
     return {
-        "evaluations": len(files), "distinct_nontrivial": len(set(files)),
+        "evaluations": total_files, "distinct_nontrivial": len(distinct),
         "rule": "structured descriptions (0-4 mappings, 0-3 key sub-tables, 0-2 analog sub-tables, keys by name or xHEX, notes by number or "
                 "name in any case, every analog type with optional fields present/absent) rendered to TOML; for each, all applicable "
                 "single-field invalidations (%d kinds); distinct = distinct file texts (every file has at least one mapping, so all are non-trivial)" % len(kinds),
         "valid_descriptions": nvalid, "invalidations": ninvalid, "invalidation_kinds": kinds,
-        "traces_validated_against_impl": len(model), "disagreements": len(disag),
-        "samples": [{"file": files[0].decode()[:1500], "implementation": results[0][0][:600]}],
+        "traces_validated_against_impl": nmodel, "disagreements": len(disag),
+        "samples": [first_sample] if first_sample else [],
         "assumptions": ["the TOML decoder (go-toml v2, third party) is not modelled: the model's convert starts from the structure the real decoder produced",
                         "duplicate spellings of one code inside one table (Go map iteration order) are not generated"],
     }
